@@ -53,6 +53,12 @@ Faults ==
   { [kind |-> "fault", cls |-> x.cls, code |-> x.code, msg |-> "class", detail |-> "none", sub |-> b] :
       x \in Dedicated, b \in BOOLEAN }
   \cup
+  \* a subclass of a dedicated error class that names a fault code of its OWN (class TokenExpired(InvalidCredentialsError):
+  \* CODE = 'Client.TokenExpired'; spyne.util.django.ObjectNotFoundError is one of these): the client sees the subclass' code,
+  \* the status line is still the one of the dedicated class it IS - the table is about classes, not about code strings
+  { [kind |-> "fault", cls |-> x.cls, code |-> <<"Client", "OwnCode">>, msg |-> "class", detail |-> "none", sub |-> TRUE] :
+      x \in {y \in Dedicated : y.cls # "schemaval"} }
+  \cup
   { [kind |-> "exc", cls |-> e, code |-> <<>>, msg |-> "secret", detail |-> "none", sub |-> FALSE] : e \in Excs }
 
 \* pairwise rather than the full product: vary (code x msg) with detail fixed, and
